@@ -320,8 +320,15 @@ theorem wSetCb_inv (w : World) (j : Nat) (h : WInv w) : WInv (wSetCb w j).1 := b
   | none => exact h
   | some a => exact winv_put w j _ h (ainv_congr (b := { a with hasCb := true }) (h.alarms j a hg) rfl rfl rfl rfl rfl rfl)
 
+theorem wInitc_inv (w : World) (j : Nat) (x : Option Cron.Expr) (h : WInv w) : WInv (wInitc w j x).1 := by
+  unfold wInitc
+  cases hg : w.get j with
+  | none => exact h
+  | some a => exact winv_put w j _ h (initCron_ainv a x (h.alarms j a hg))
+
 theorem applyAct_inv (w : World) (a : Act) (h : WInv w) : WInv (applyAct w a) := by
   cases a with
+  | initc j x => exact wInitc_inv w j x h
   | cleanup j => exact wSetCb_inv _ j (wCleanup_inv w j h)
   | init j sod m wd => exact wInitOp_inv w j sod m wd h
   | tz j m => exact wTz_inv w j m h
@@ -383,10 +390,7 @@ theorem wOp_inv (w : World) (o : WOp) (h : WInv w) : WInv (wOp w o).1 := by
       have h1 := winv_put w j (fresh c) h (fresh_ainv c)
       exact ⟨h1.alarms, h1.watch, h1.log⟩
   | init j sod m wd => exact wInitOp_inv w j sod m wd h
-  | initc j x =>
-    cases hg : w.get j with
-    | none => simp only [wOp, hg]; exact h
-    | some a => simp only [wOp, hg]; exact winv_put w j _ h (initCron_ainv a x (h.alarms j a hg))
+  | initc j x => exact wInitc_inv w j x h
   | tz j m => exact wTz_inv w j m h
   | enable j => exact wEnable_inv w j h
   | disable j => exact wDisable_inv w j h
